@@ -16,7 +16,7 @@ from ..stats import jsonable
 
 ID = "C02"
 SHARDS = {"quick": 8, "thorough": 16}
-RULE = ("as C01 plus a positive heat-capacity field 1e-8..1e-2 a.u.; shear clause: task list on a duck calculator "
+RULE = ("as C01 plus a positive heat-capacity field 1e-8..1e-2 a.u. (1e-14..1e-2 in a third of the cases); shear clause: task list on a duck calculator "
         "with a generic strain field (ntv x 3) and one of the 15 shear keys; non-trivial = T>0 with gap > 1e-6 |c|, "
         "off-diagonal with |e_i-e_j|>0.05, or shear case whose non-shear dependencies have a non-zero gap")
 ASSUMPTIONS = [
